@@ -46,4 +46,48 @@ theorem independent_blocks (a h b : Bytes)
 example : (indepPair [62, 32, 113, 10, 10, 112, 97, 114, 97, 10] [104] [45, 32, 120, 10]).isSome = true := by
   decide +kernel
 
+/-! ### round 4: the POSITIONAL class -/
+
+/-- the positional class of first parts (`GM.Blocks.Xs.PlainL`, GM/Proof/ShiftSimXSafe.lean): for every byte `a[j]` such
+    that all bytes of its line in front of it are spaces, tabs or `>`, `a[j]` is none of `- * + 0-9 = ` ~` — i.e. no line
+    of `a` starts, after its quote markers and indentation, with a trigger of a list parser, the setext parser or the
+    fenced-code parser. Digits, dashes, stars, equal signs, backticks INSIDE lines are allowed. -/
+abbrev PositionalClass := @GM.Blocks.Xs.PlainL
+
+/-- an executable test for the class (sound: `positional_check_sound`) -/
+abbrev positionalCheck := @GM.Blocks.Xs.plainLB
+theorem positional_check_sound : type_of% @GM.Blocks.Xs.plainLB_sound := @GM.Blocks.Xs.plainLB_sound
+
+/-- the byte-level class of round 3 is contained in the positional class -/
+theorem positional_of_bytes : type_of% @GM.Blocks.Xs.plainL_of_plain6 := @GM.Blocks.Xs.plainL_of_plain6
+
+/-- `PrefixReached` for the positional class (prefix determinism + closing at the end of the source = closing by a blank
+    line; the right-extension simulation now threads "run A's cursor is trigger-safe": everything of the line in front of
+    the cursor is quote markers and spaces, or the rest of the line is blank — so the byte `openBlocks` looks up is the
+    first byte of the line that is not ` `, tab or `>`) -/
+theorem prefix_reached_positional : type_of% @GM.Blocks.Xs.reach_plainL := @GM.Blocks.Xs.reach_plainL
+
+/-- **C09 first half for the positional class**: every `h`, every `b`, every `a` that ends with a line feed and in which
+    no line starts, after its quote markers and indentation, with `- * + 0-9 = ` ~`. -/
+theorem independent_blocks_positional (a h b : Bytes) (ha : a.getLast? = some 10) (hpl : PositionalClass a) :
+    ∀ e g, indepPair a h b = some (e, g) → e = g :=
+  GM.Blocks.Xs.independent_blocks_plainL a h b ha hpl
+
+/-- the same with the executable test -/
+theorem independent_blocks_checked (a h b : Bytes) (ha : a.getLast? = some 10) (hc : positionalCheck a = true) :
+    ∀ e g, indepPair a h b = some (e, g) → e = g :=
+  independent_blocks_positional a h b ha (GM.Blocks.Xs.plainLB_sound a hc)
+
+/-- the classes together: `a` empty, or ending with a line feed and in the positional class -/
+theorem independent_blocks_wide (a h b : Bytes) (hclass : a = [] ∨ (a.getLast? = some 10 ∧ PositionalClass a)) :
+    ∀ e g, indepPair a h b = some (e, g) → e = g := by
+  rcases hclass with rfl | ⟨ha, hpl⟩
+  · exact GM.Props.C09Shift.independent_blocks_empty_a_all h b
+  · exact independent_blocks_positional a h b ha hpl
+
+/-- not vacuous, with prose that the byte-level class rejects: `a = "> a - 1\n\nb = 2 * `x`\n"`, `h = "h"`, `b = "- x\n"` -/
+example : positionalCheck [62, 32, 97, 32, 45, 32, 49, 10, 10, 98, 32, 61, 32, 50, 32, 42, 32, 96, 120, 96, 10] = true := by decide
+example : (indepPair [62, 32, 97, 32, 45, 32, 49, 10, 10, 98, 32, 61, 32, 50, 32, 42, 32, 96, 120, 96, 10] [104]
+    [45, 32, 120, 10]).isSome = true := by decide +kernel
+
 end GM.Props.C09Shift
